@@ -1,3 +1,3 @@
 Require Import ExtrOcamlBasic.
-Require Import SGV.Routing.Global.
-Extraction "c24_model.ml" run_global.
+Require Import SGV.Routing.Global SGV.Routing.Bypass.
+Extraction "c24_model.ml" run_global run_global_bp.
